@@ -702,7 +702,7 @@ def replay_applied(d):
     sc._ephem_importer = None
     x0 = np.array([7000.0, 0.0, 0.0, 0.0, 7.546, 0.0])
     for a in sc.target_agents.values():
-        a._time, a.dt_step, a.eci_state, a.dynamics = ScenarioTime(k0 * dt), ScenarioTime(dt), x0.copy(), TwoBody()
+        a._time, a.dt_step, a.eci_state, a.dynamics, a.datetime_start = ScenarioTime(k0 * dt), ScenarioTime(dt), x0.copy(), TwoBody(), start
     calls = []
 
     class Exec:
